@@ -154,6 +154,25 @@ var registry = []Harness{
 		Bound: "five registered names with one symbolic TXT record each, a CNAME chain of param0 links (param1 = 1: closed into a cycle); resolve with and without trailing dot, for TXT and CNAME"},
 	{Prop: "C12", Pkg: "nns", Func: "VerifC12Expiry", Link: []string{"nns"},
 		Bound: "a name with symbolic lifetime 1..1000 s and one record, a symbolic time span 1..1.1*10^6 ms; getRecords, resolve, getAllRecords answer exactly until the expiration instant"},
+	{Prop: "C03", Pkg: "proxy", Func: "VerifC03", Link: []string{"alphabet", "audit", "balance", "container", "neofs", "neofsid", "netmap", "nns", "processing", "proxy", "reputation", "probe1"},
+		Quick: c03Params([]int{7}), Thorough: c03Params([]int{1, 3, 7}),
+		Bound: "one invocation per mutating method (47 methods of 10 contracts; NNS is C11, update is C16) from a small fixture built through the API, arguments concrete/valid, signer set symbolic over {Alphabet 2n/3+1 account, committee n/2+1 account, Inner Ring majority account, one committee member, the named user, the named node}+stranger; committee size = param2 (7 in quick: the two thresholds differ)"},
+	{Prop: "C03", Pkg: "proxy", Func: "VerifC03Verify", Link: []string{"alphabet", "netmap", "neofs", "processing", "proxy"},
+		Quick: [][]int{{7}}, Thorough: [][]int{{1}, {3}, {7}},
+		Bound: "verify of Proxy, Alphabet and Processing with the same symbolic signer set"},
+}
+
+func c03Params(sizes []int) [][]int {
+	counts := []int{6, 11, 11, 4, 8, 2}
+	var out [][]int
+	for _, n := range sizes {
+		for g, c := range counts {
+			for m := 0; m < c; m++ {
+				out = append(out, []int{g, m, n})
+			}
+		}
+	}
+	return out
 }
 
 func c11Params(thorough bool) [][]int {
@@ -209,6 +228,7 @@ func allTriples(n int) [][]int {
 	}
 	return out
 }
+
 
 
 
